@@ -234,8 +234,54 @@ pub fn c14_queries(s: &Shipped) -> (Vec<String>, Vec<usize>) {
         }
       }
     }
+    // a fact word next to a word that occurs in no fact at all (what the tool answers then is its
+    // business, but it is the same business in every session)
+    let mut strangers: Vec<String> = Vec::new();
+    for (i, t) in freq.keys().enumerate() {
+        for w in ["atlantis", "zzzqx", "krypton"] {
+            if i % 3 == 0 || w == "atlantis" {
+                for q in [format!("{t} {w}"), format!("{w} {t}")] {
+                    if let Some(f) = typed_forms(&q.split(' ').collect::<Vec<_>>()).into_iter().next() {
+                        if set.insert(f.clone()) {
+                            strangers.push(f);
+                        }
+                    }
+                }
+            }
+        }
+    }
+    // one-word prefixes that words of facts from *different* asset files share ("pe": Perdita / Peru):
+    // the commonest kind of tie across assets; always asked
+    let mut shared: Vec<String> = Vec::new();
+    {
+        let mut by_prefix: BTreeMap<String, BTreeSet<usize>> = BTreeMap::new();
+        for (t, assets) in &tok_assets {
+            let cs: Vec<char> = t.chars().collect();
+            for l in 1..=cs.len().min(7) {
+                by_prefix.entry(cs[..l].iter().collect()).or_default().extend(assets.iter().copied());
+            }
+        }
+        for (p, assets) in by_prefix {
+            if assets.len() >= 2 {
+                if let Some(f) = typed_forms(&[p.as_str()]).into_iter().next() {
+                    set.insert(f.clone());
+                    shared.push(f);
+                }
+            }
+        }
+    }
     let all: Vec<String> = set.into_iter().collect();
     let mut keep = Vec::new();
+    for f in shared.iter().take(400) {
+        if let Ok(i) = all.binary_search(f) {
+            keep.push(i);
+        }
+    }
+    for f in strangers.iter().step_by(9) {
+        if let Ok(i) = all.binary_search(f) {
+            keep.push(i);
+        }
+    }
     // those that involve the smallest asset are always asked (at most 700), also in the quick tier
     for (f, _) in prefix_pairs.iter().filter(|(_, small)| *small).take(700) {
         if let Ok(i) = all.binary_search(f) {
